@@ -198,4 +198,12 @@ var properties = map[string]propSpec{
 		Stub:        []string{"model endpoints (in-memory trees; transition outcomes chosen by the plan)", "simulated user", "client actors", "fake clock"},
 		Probes:      []string{"probe.paused", "probe.restarts", "probe.flush_waited_ok", "probe.reset", "probe.terminated"},
 	},
+	"C08": {
+		Engine: "syncsim", Level: "exploration", QuickSec: 40, ThoroughSec: 900,
+		Rule: "one run = a real session over two real local endpoints on tmpfs; the simulated user edits both roots (new content with new inode, in-place edit with new mtime, chmod, type change, new children, sockets as unsupported types) while the seeded scheduler interleaves the edits with endpoint-method gates and - per run - syscall-level gates of scan/transition/stage/supply/receive/poll; oracle before every unlinkat / replacing renameat issued by a transition: the entry on disk at that instant (independent walker: kind, sha1, executability, target) equals what the preceding scan of that endpoint recorded, unless the user touched the path after the Transition call began (mutagen's documented check-then-act window); untracked content is never destroyed; non-trivial = at least one transition applied and two scans; distinct = distinct journal hashes + final trees",
+		Assumptions: append([]string{"edits scheduled after the Transition call began are excluded for this rule (the property quantifies over edits between scan and transition)"}, commonAssumptions...),
+		Real:        []string{"synchronization.Manager and controller", "local endpoint (scan, poll watching, staging, transition, cache)", "core.Scan / core.Transition / core.Reconcile", "rsync transmit/receive", "filesystem package on tmpfs (/dev/shm)", "staging store"},
+		Stub:        []string{"simulated user (plain os calls, stamped mtimes)", "independent walker", "syscall hook (gates, errno injection)", "fake clock"},
+		Probes:      []string{"probe.destructive_ops", "probe.disk_transitions", "probe.transition_problem_modified", "probe.user_edits"},
+	},
 }
